@@ -145,6 +145,26 @@ def _fit(args):
             out.append(({"api": "predict_proba", "kind": "delegation", **sig0}, "predict_proba differs from the selected predictor's", detail))
     except AttributeError:
         pass   # the selected predictor is a constant DummyClassifier without predict_proba agreement issues
+    # (4) the selection clause does not depend on where the vectors came from: the SAME vectors handed back by the user
+    #     as grid=, in another column order and with their original labels, must again select the argmin and delegate to it
+    if (gsize + which) % 4 == 1 and len(lv.columns) >= 3:
+        try:
+            user = lv[list(lv.columns[::-1])]
+            g2 = red.GridSearch(RC.ExactLearner(), M.make_moment(kind, ratio), grid=user, constraint_weight=cw)
+            g2.fit(d["X"], np.array(d["y"]), sensitive_features=d["g"])
+            l2 = []
+            for pr in g2.predictors_:
+                h2 = RC.hyp_of(pr, F)
+                l2.append((1 - cw) * float(tab.err_of(h2)) + cw * max(float(x) for x in tab.gamma_of(h2)))
+            bi = int(g2.best_idx_)
+            if not (0 <= bi < len(l2)) or l2[bi] > min(l2) + TOL:
+                out.append(({"api": "best_idx_", "kind": "not_argmin", "user_grid": True, **sig0},
+                            f"user-supplied grid (columns {list(user.columns)}): best_idx_={g2.best_idx_} has trade-off {l2[bi] if 0 <= bi < len(l2) else None} > min {min(l2)} (cw={cw})", detail))
+            elif not np.array_equal(g2.predict(Xq), g2.predictors_[bi].predict(Xq)):
+                out.append(({"api": "predict", "kind": "delegation", "user_grid": True, **sig0}, "user-supplied grid: predict differs from the selected predictor's", detail))
+        except Exception as e:
+            if "non-zero number" not in str(e):
+                out.append(({"api": "GridSearch.fit", "kind": "exception", "exc": type(e).__name__, "user_grid": True, **sig0}, f"fit / predict with a user-supplied grid raised {e!r}", detail))
     return out, notes, full
 
 
